@@ -49,6 +49,19 @@ pub struct CounterPlan {
     pub flavour: Flavour,
     pub origin: Origin,
     pub threads: Vec<Vec<COp>>,
+    /// float counters only: every increment is multiplied by 2^scale (exact), so that tiny, subnormal
+    /// and huge amounts are exercised; plans with a scale use no unit increments
+    #[serde(default)]
+    pub scale: i32,
+}
+/// x * 2^e, exact for the magnitudes used here (done in steps because 2^e itself may not be representable)
+fn scale_by(mut x: f64, mut e: i32) -> f64 {
+    while e != 0 {
+        let step = e.clamp(-1000, 1000);
+        x *= 2f64.powi(step);
+        e -= step;
+    }
+    x
 }
 
 #[derive(Clone)]
@@ -57,9 +70,9 @@ enum Ctr {
     I(IntCounter),
 }
 impl Ctr {
-    fn inc_by(&self, v: u64) {
+    fn inc_by(&self, v: u64, scale: i32) {
         match self {
-            Ctr::F(c) => c.inc_by(v as f64),
+            Ctr::F(c) => c.inc_by(scale_by(v as f64, scale)),
             Ctr::I(c) => c.inc_by(v),
         }
     }
@@ -87,7 +100,7 @@ impl Ctr {
             Ctr::I(c) => c.collect(),
         }
     }
-    fn batch(&self, bits: &[u8], units: u8, flush: bool, clone_mid: bool) {
+    fn batch(&self, bits: &[u8], units: u8, flush: bool, clone_mid: bool, scale: i32) {
         macro_rules! go {
             ($c:expr, $conv:expr) => {{
                 let l = $c.local();
@@ -120,7 +133,7 @@ impl Ctr {
             }};
         }
         match self {
-            Ctr::F(c) => go!(c, |x: u64| x as f64),
+            Ctr::F(c) => go!(c, |x: u64| scale_by(x as f64, scale)),
             Ctr::I(c) => go!(c, |x: u64| x),
         }
     }
@@ -199,7 +212,21 @@ impl C01 {
             5..=7 => Origin::VecChild,
             _ => Origin::Registry,
         };
-        CounterPlan { env, flavour, origin, threads }
+        let mut scale = 0;
+        if flavour == Flavour::Float && r.chance(20) {
+            // smallest weight is 2^8: -1082 makes it the smallest subnormal
+            scale = *r.pick(&[-60, -100, -1082, -1030, 900]);
+            for ops in threads.iter_mut() {
+                for op in ops.iter_mut() {
+                    match op {
+                        COp::Inc => *op = COp::Get,
+                        COp::LocalBatch { units, .. } => *units = 0,
+                        _ => {}
+                    }
+                }
+            }
+        }
+        CounterPlan { env, flavour, origin, threads, scale }
     }
 
     fn execute(plan: &CounterPlan, mode: Mode) -> RunOut {
@@ -241,6 +268,7 @@ impl C01 {
             let vec = vec.clone();
             let reg = reg.clone();
             let keep = keep.clone();
+            let scale = plan.scale;
             spawn_threads(&sim, &plan.threads, &results, move |_ctx, _t, _i, op: &COp| {
                 let child;
                 let c: &Ctr = match (&ctr, &vec) {
@@ -254,7 +282,7 @@ impl C01 {
                 };
                 match op {
                     COp::IncBy(k) => {
-                        c.inc_by(1u64 << k);
+                        c.inc_by(1u64 << k, scale);
                         None
                     }
                     COp::Inc => {
@@ -271,7 +299,7 @@ impl C01 {
                         Some(compat::single_value(&mfs).unwrap_or(f64::NAN))
                     }
                     COp::LocalBatch { bits, units, flush, clone_mid } => {
-                        c.batch(bits, *units, *flush, *clone_mid);
+                        c.batch(bits, *units, *flush, *clone_mid, scale);
                         None
                     }
                     COp::Reset => {
@@ -298,7 +326,15 @@ impl C01 {
             _ => unreachable!(),
         };
         let iv = intervals(&res.log);
-        let results = results.lock().unwrap();
+        let mut results = results.lock().unwrap().clone();
+        // reads are judged in units of 2^scale
+        let unscale = |v: f64| if plan.flavour == Flavour::Float { scale_by(v, -plan.scale) } else { v };
+        for (_, r) in results.iter_mut() {
+            if let Ok(Some(v)) = r {
+                *v = unscale(*v);
+            }
+        }
+        let final_v = unscale(final_v);
         judge_counter(plan, &iv, &results, final_v, &mut out);
         out
     }
@@ -508,6 +544,10 @@ pub enum GOp {
     SetZero(bool),
     /// add(+0.0) / add(-0.0)
     AddZero(bool),
+    /// integer gauges only: operands at the limits of i64 (arithmetic wraps)
+    AddRaw(i64),
+    SubRaw(i64),
+    SetRaw(i64),
 }
 #[derive(Serialize, Deserialize, Clone, Debug)]
 pub struct GaugePlan {
@@ -538,6 +578,10 @@ impl Gg {
             (Gg::I(g), GOp::SetZero(_)) => g.set(0),
             (Gg::F(g), GOp::AddZero(neg)) => g.add(if *neg { -0.0 } else { 0.0 }),
             (Gg::I(g), GOp::AddZero(_)) => g.add(0),
+            (Gg::I(g), GOp::AddRaw(v)) => g.add(*v),
+            (Gg::I(g), GOp::SubRaw(v)) => g.sub(*v),
+            (Gg::I(g), GOp::SetRaw(v)) => g.set(*v),
+            (Gg::F(_), GOp::AddRaw(_) | GOp::SubRaw(_) | GOp::SetRaw(_)) => {}
             (_, GOp::Get) => return Some(self.get()),
         }
         None
@@ -563,10 +607,13 @@ impl Spec for GaugeSpec {
     fn step(&self, s: &i64, op: &Self::Op) -> Option<i64> {
         match &op.0 {
             GOp::Set(m) => Some((*m as i64) << 40),
-            GOp::Add(k) => Some(s + (1i64 << k)),
-            GOp::Sub(k) => Some(s - (1i64 << k)),
-            GOp::Inc => Some(s + 1),
-            GOp::Dec => Some(s - 1),
+            GOp::Add(k) => Some(s.wrapping_add(1i64 << k)),
+            GOp::Sub(k) => Some(s.wrapping_sub(1i64 << k)),
+            GOp::Inc => Some(s.wrapping_add(1)),
+            GOp::Dec => Some(s.wrapping_sub(1)),
+            GOp::AddRaw(v) => Some(s.wrapping_add(*v)),
+            GOp::SubRaw(v) => Some(s.wrapping_sub(*v)),
+            GOp::SetRaw(v) => Some(*v),
             GOp::SetZero(_) => Some(0),
             GOp::AddZero(_) => Some(*s),
             GOp::Get => {
@@ -584,64 +631,104 @@ pub struct C11;
 impl C11 {
     fn gen_plan(seed: u64) -> GaugePlan {
         let mut r = Rng::new(seed, 1);
-        let nthreads = if r.chance(8) { 1 } else { 2 + r.below(2) as usize };
-        let with_set = r.chance(50);
-        let paired = !with_set && r.chance(40);
-        let mut next_bit = 8u8;
+        let flavour = if r.chance(60) { Flavour::Float } else { Flavour::Int };
+        const LIMITS: &[i64] = &[i64::MIN, i64::MAX, -1, 1 << 62, i64::MIN + 1];
+        let limits = flavour == Flavour::Int && r.chance(25);
         let mut threads = vec![];
         let mut nops = 0;
-        for _ in 0..nthreads {
-            let n = 1 + r.below(5) as usize;
-            let mut ops: Vec<GOp> = vec![];
-            let mut open: Vec<u8> = vec![];
-            for _ in 0..n {
-                let op = match r.below(100) {
-                    0..=24 => {
-                        next_bit += 1;
-                        open.push(next_bit - 1);
-                        GOp::Add(next_bit - 1)
-                    }
-                    25..=39 => {
-                        if paired {
-                            match open.pop() {
-                                Some(k) => GOp::Sub(k),
-                                None => GOp::Get,
-                            }
-                        } else {
-                            next_bit += 1;
-                            GOp::Sub(next_bit - 1)
-                        }
-                    }
-                    40..=49 => GOp::Inc,
-                    50..=59 => GOp::Dec,
-                    60..=74 => {
-                        if with_set {
-                            // signed zeros: the bit patterns differ although the values compare equal
-                            match r.below(10) {
-                                0..=2 => GOp::SetZero(r.chance(50)),
-                                3 => GOp::AddZero(r.chance(50)),
-                                _ => GOp::Set(1 + r.below(100) as u8),
-                            }
-                        } else {
-                            GOp::Get
-                        }
-                    }
-                    _ => GOp::Get,
-                };
-                ops.push(op);
-                nops += 1;
+        let nthreads;
+        if limits && r.chance(50) {
+            // focused: one thread applies operands at the limits of i64, the others look and set
+            nthreads = 2 + r.below(2) as usize;
+            let n = 1 + r.below(3) as usize;
+            threads.push((0..n).map(|_| if r.chance(50) { GOp::AddRaw(*r.pick(LIMITS)) } else { GOp::SubRaw(*r.pick(LIMITS)) }).collect::<Vec<_>>());
+            nops += n as u64;
+            for _ in 1..nthreads {
+                let n = 1 + r.below(3) as usize;
+                threads.push(
+                    (0..n)
+                        .map(|_| match r.below(10) {
+                            0..=5 => GOp::Get,
+                            6..=7 => GOp::Set(1 + r.below(100) as u8),
+                            8 => GOp::SetRaw(*r.pick(LIMITS)),
+                            _ => GOp::Inc,
+                        })
+                        .collect::<Vec<_>>(),
+                );
+                nops += n as u64;
             }
-            if paired {
-                while let Some(k) = open.pop() {
-                    ops.push(GOp::Sub(k));
+        } else {
+            nthreads = if r.chance(8) { 1 } else { 2 + r.below(2) as usize };
+            let with_set = r.chance(50);
+            let paired = !with_set && r.chance(40);
+            let mut next_bit = 8u8;
+            for _ in 0..nthreads {
+                let n = 1 + r.below(5) as usize;
+                let mut ops: Vec<GOp> = vec![];
+                let mut open: Vec<u8> = vec![];
+                for _ in 0..n {
+                    let op = match r.below(100) {
+                        0..=24 => {
+                            next_bit += 1;
+                            open.push(next_bit - 1);
+                            GOp::Add(next_bit - 1)
+                        }
+                        25..=39 => {
+                            if paired {
+                                match open.pop() {
+                                    Some(k) => GOp::Sub(k),
+                                    None => GOp::Get,
+                                }
+                            } else {
+                                next_bit += 1;
+                                GOp::Sub(next_bit - 1)
+                            }
+                        }
+                        40..=49 => GOp::Inc,
+                        50..=59 => GOp::Dec,
+                        60..=74 => {
+                            if with_set {
+                                // signed zeros: the bit patterns differ although the values compare equal
+                                match r.below(10) {
+                                    0..=2 => GOp::SetZero(r.chance(50)),
+                                    3 => GOp::AddZero(r.chance(50)),
+                                    _ => GOp::Set(1 + r.below(100) as u8),
+                                }
+                            } else {
+                                GOp::Get
+                            }
+                        }
+                        _ => GOp::Get,
+                    };
+                    ops.push(op);
                     nops += 1;
                 }
+                if paired {
+                    while let Some(k) = open.pop() {
+                        ops.push(GOp::Sub(k));
+                        nops += 1;
+                    }
+                }
+                threads.push(ops);
             }
-            threads.push(ops);
+            if limits {
+                for ops in threads.iter_mut() {
+                    for op in ops.iter_mut() {
+                        if !r.chance(50) {
+                            continue;
+                        }
+                        match op {
+                            GOp::Add(_) | GOp::Inc => *op = GOp::AddRaw(*r.pick(LIMITS)),
+                            GOp::Sub(_) | GOp::Dec => *op = GOp::SubRaw(*r.pick(LIMITS)),
+                            GOp::Set(_) => *op = GOp::SetRaw(*r.pick(LIMITS)),
+                            _ => {}
+                        }
+                    }
+                }
+            }
         }
         let faults = r.chance(60);
         let env = Env::swarm(&mut r, nthreads, nops * 5 + 10, faults);
-        let flavour = if r.chance(60) { Flavour::Float } else { Flavour::Int };
         let origin = if r.chance(70) { Origin::Standalone } else { Origin::VecChild };
         GaugePlan { env, flavour, origin, threads }
     }
